@@ -440,7 +440,7 @@ static inline int myth_once_wait_until(myth_once_t * once_control,
   MYTH_VERIF_EV2("OnLd", VON(once_control), s);
   while (s != state) {
     myth_yield();
-    MYTH_VERIF_POINT(60);
+    MYTH_VERIF_SPIN(60);
     s = once_control->state;
     MYTH_VERIF_EV2("OnLd", VON(once_control), s);
   }
@@ -609,6 +609,7 @@ myth_mutex_timedlock_body(myth_mutex_t * mutex,
       if (myth_mutex_trylock_body(mutex) == 0) {
 	return 0;
       } else {
+	MYTH_VERIF_SPIN(63);
 	myth_yield_ex_body(myth_yield_option_local_first);
       }
     }
